@@ -177,6 +177,12 @@ func (p *C03) Gen(seed uint64, i int, tier string) *scen.Scenario {
 		sc.Setup = append(sc.Setup, scen.Op{Op: "set", L: l, Kind: kind, W: w, WK: wk, Lvl: lvl})
 		m.Apply(kind, w, lvl)
 		probe(l)
+		if len(loggers) > 1 && r.Chance(1, 2) {
+			// no operation on one logger changes the writers of another: probe a different logger too
+			if o := scen.Pick(r, loggers); o != l {
+				probe(o)
+			}
+		}
 	}
 	return sc
 }
